@@ -511,6 +511,28 @@ class EventBus:
         assert event.event_type and event.event_type.isidentifier(), 'Missing event.event_type: str'
         assert event.event_schema and '@' in event.event_schema, 'Missing event.event_schema: str (with @version)'
 
+        # Capacity checks come first: a rejected dispatch must leave no trace on the event
+        # (parent id, path) or on the running handler (event_children), otherwise the
+        # never-queued event keeps its would-be parent from ever completing.
+
+        # Check hard limit on total pending events (queue + in-progress)
+        # Only enforce if we have memory limits set
+        if self.max_history_size is not None:
+            queue_size = self.event_queue.qsize() if self.event_queue else 0
+            pending_in_history = sum(1 for e in self.event_history.values() if e.event_status in ('pending', 'started'))
+            total_pending = queue_size + pending_in_history
+
+            if total_pending >= 100:
+                raise RuntimeError(
+                    f'EventBus at capacity: {total_pending} pending events (100 max). '
+                    f'Queue: {queue_size}, Processing: {pending_in_history}. '
+                    f'Cannot accept new events until some complete.'
+                )
+
+        if self.event_queue is not None and self.event_queue.full():
+            logger.error(f'⚠️ {self} Event queue is full! Rejecting event {event.event_type}#{event.event_id[-4:]}')
+            raise asyncio.QueueFull(f'{self} event queue is full ({self.event_queue.qsize()} queued), event not queued: {event.event_type}')
+
         # Automatically set event_parent_id from context if not already set
         if event.event_parent_id is None:
             current_event: 'BaseEvent[Any] | None' = _current_event_context.get()
@@ -542,20 +564,6 @@ class EventBus:
         assert all(entry.isidentifier() for entry in event.event_path), (
             f'Event.event_path must be a list of valid EventBus names, got: {event.event_path}'
         )
-
-        # Check hard limit on total pending events (queue + in-progress)
-        # Only enforce if we have memory limits set
-        if self.max_history_size is not None:
-            queue_size = self.event_queue.qsize() if self.event_queue else 0
-            pending_in_history = sum(1 for e in self.event_history.values() if e.event_status in ('pending', 'started'))
-            total_pending = queue_size + pending_in_history
-
-            if total_pending >= 100:
-                raise RuntimeError(
-                    f'EventBus at capacity: {total_pending} pending events (100 max). '
-                    f'Queue: {queue_size}, Processing: {pending_in_history}. '
-                    f'Cannot accept new events until some complete.'
-                )
 
         # Auto-start if needed
         self._start()
